@@ -160,6 +160,9 @@ func c10Ops() []c10Op {
 		{Name: "PutObjectLockConfiguration-drop-default", Kind: "lockconfig", Build: func(vid string, m map[string]string) *gw.Req {
 			return NewReq("PUT", "/"+c10Bucket, "object-lock", nil, []byte("<ObjectLockConfiguration><ObjectLockEnabled>Enabled</ObjectLockEnabled></ObjectLockConfiguration>"))
 		}},
+		{Name: "PutObjectLockConfiguration-without-ObjectLockEnabled", Kind: "lockconfig", Build: func(vid string, m map[string]string) *gw.Req {
+			return NewReq("PUT", "/"+c10Bucket, "object-lock", nil, []byte("<ObjectLockConfiguration></ObjectLockConfiguration>"))
+		}},
 		{Name: "PutBucketVersioning-Suspended", Kind: "versioning", Build: func(vid string, m map[string]string) *gw.Req {
 			return NewReq("PUT", "/"+c10Bucket, "versioning", nil, []byte("<VersioningConfiguration><Status>Suspended</Status></VersioningConfiguration>"))
 		}},
@@ -295,7 +298,7 @@ func C10(r *ck.Run) {
 				continue
 			}
 			switch n {
-			case "PutObjectRetention-shorten-governance", "PutObjectLegalHold-OFF", "PutObjectLockConfiguration-drop-default", "PutBucketVersioning-Suspended",
+			case "PutObjectRetention-shorten-governance", "PutObjectLegalHold-OFF", "PutObjectLockConfiguration-drop-default", "PutObjectLockConfiguration-without-ObjectLockEnabled", "PutBucketVersioning-Suspended",
 				"PutBucketPolicy-grant-bypass-to-everyone", "DeleteObject-by-version", "PutObject", "DeleteObjects-by-key":
 				tiny = append(tiny, s)
 			}
